@@ -122,11 +122,18 @@ def build_ops(seed: int, docs: dict[str, dict], tier: str, out_mode: str = "expl
     n = r.randint(3, 10)
     ops: list[dict] = []
     have_gen = False
+    precreated = False
+    if out_mode != "derived" and r.random() < 0.25:
+        # the output location exists BEFORE the first generation: an empty directory (mktemp -d, a mounted volume), one
+        # holding only hidden entries (a fresh git init), or one with the user's own files
+        for _ in range(r.choice([1, 1, 2])):
+            ops.append({"op": "USER", "action": r.choice(["mkdir-empty", "dotfiles", "write"]), "where": r.choice(["root", "subdir"]), "n": r.randrange(1000)})
+        precreated = True
     for i in range(n):
         c = r.random()
         m = r.choice(METAS) if mixed_meta else meta
         if not have_gen or c < 0.45:
-            ops.append({"op": "GEN", "doc": r.choice(names), "meta": m, "overwrite": have_gen and r.random() < 0.75})
+            ops.append({"op": "GEN", "doc": r.choice(names), "meta": m, "overwrite": (have_gen and r.random() < 0.75) or (precreated and not have_gen and r.random() < 0.5)})
             have_gen = True
         elif c < 0.65:
             ops.append({"op": "USER", "action": r.choice(["write", "write", "modify", "delete", "write-generated", "delete-generated", "rmdir-models"]),
@@ -454,8 +461,12 @@ class World:
 
     def do_user(self, op: dict, label: str) -> None:
         if not self.O or not os.path.isdir(self.O):
-            self.log.append(f"op {label} USER skipped (no output location yet)")
-            return
+            if self.explicit and self.O and op["action"] in ("mkdir-empty", "dotfiles", "write") and not os.path.lexists(self.O):
+                os.makedirs(self.O)  # the user creates the output location before the first generation
+                self.probe("output-location-precreated")
+            else:
+                self.log.append(f"op {label} USER skipped (no output location yet)")
+                return
         pkg = self.package_dir()
         where = {"root": "", "package": pkg, "subdir": "user_notes", "pkgsubdir": os.path.join(pkg, "my_ext") if pkg else "my_ext"}[op["where"]]
         act = op["action"]
@@ -469,6 +480,16 @@ class World:
             while d:
                 self.user_dirs.add(d)
                 d = os.path.dirname(d)
+        elif act == "dotfiles":
+            for rel, data in ((".env", f"TOKEN={n}\n".encode()), (os.path.join(".git", "HEAD"), b"ref: refs/heads/main\n"), (os.path.join(".hidden", f"keep_{n}"), b"")):
+                if rel in self.user_files or os.path.lexists(os.path.join(self.O, rel)):
+                    continue
+                self._w(os.path.join(self.O, rel), data)
+                self.user_files[rel] = data
+                if os.path.dirname(rel):
+                    self.user_dirs.add(os.path.dirname(rel))
+        elif act == "mkdir-empty":
+            pass
         elif act == "modify" and self.user_files:
             rel = sorted(self.user_files)[n % len(self.user_files)]
             data = self.user_files[rel] + f"# edit {n}\n".encode()
